@@ -309,6 +309,7 @@ func checkC03(w *World, r *Report) {
 	}
 	r.Rule("C03.inflow", "P6", "main-source inflow = balance(DistributorMainAccount) minus the sum of ALL states' remains (the full state list, summed over every element)", 3)
 	r.Rule("C03.conserve", "P5,P6", "in StartDistributionProcess every value credited to a state other than the final remainder was subtracted from the remainder on the same path; the final remainder is credited exactly once, unless the primary destination is Main; shares are computed with MulDecTruncate only", 4)
+	r.Rule("C03.sweep", "P5", "= C14.sweep: a source sweep reports as inflow exactly the coins it moved into the main account, and nothing when the transfer failed (otherwise states are credited with coins the main account does not hold)", 4)
 	r.Rule("C03.wrapper", "P4,P6", "= C14.wrapper: bank wrappers of the distributor pass amount, accounts and result through unchanged", 4)
 	r.Rule("C03.persist", "P5", "in the end-of-block loop every element of the state list reaches SetState on every path", 3)
 	r.Rule("C03.order", "P4,P6", "source-order independence: the Main source must see what earlier sources of the same sub-distributor swept into the main account", 1)
@@ -322,6 +323,7 @@ func checkC03(w *World, r *Report) {
 	cg := w.CG()
 	mainAcc, _ := constOf(w, "x/cfedistributor/types", "DistributorMainAccount")
 	wrapperRule(w, r, "C03.wrapper")
+	sweepRule(w, r, "C03.sweep")
 	// ---------- C03.inflow ----------
 	{
 		fn := a.prepMain
@@ -819,81 +821,7 @@ func checkC14(w *World, r *Report) {
 			r.Check(okSrc && okDst, "C14.direction", funcName(fn)+": from the main account to the state's account", w.Pos(s.Instr.Pos()), atom.Method+"(main account -> state.Account.Id)", "the pay-out does not move coins from the distributor main account to the account recorded in the state")
 		}
 	}
-	// ---------- C14.sweep ----------
-	for _, anchor := range []string{"x/cfedistributor/keeper.Keeper.prepareCoinToDistributeForModuleAccount", "x/cfedistributor/keeper.Keeper.prepareCoinToDistributeForBaseAccount"} {
-		fn := w.Func(anchor)
-		if fn == nil {
-			r.Unk("infra.anchor", anchor, "", "anchor not found")
-			continue
-		}
-		var xfer *Site
-		for _, s := range cg.Sites[fn] {
-			for _, c := range s.Callees {
-				if len(cg.targetsBelow(c, func(x *Site) bool { return cg.Atom(x) == BankMove }, map[*ssa.Function]bool{})) > 0 {
-					xfer = s
-				}
-			}
-		}
-		if xfer == nil {
-			r.Bad("C14.sweep", funcName(fn)+": sweeps the source", w.Pos(fn.Pos()), "no transfer found")
-			continue
-		}
-		ev := errValues(fn, siteValue(xfer))
-		fail := NilEdges(fn, ev, false)
-		okFail := len(fail) > 0
-		for _, e := range fail {
-			// every return reachable from the failure edge yields nil / empty
-			seen := map[*ssa.BasicBlock]bool{}
-			var walk func(b *ssa.BasicBlock)
-			walk = func(b *ssa.BasicBlock) {
-				if seen[b] {
-					return
-				}
-				seen[b] = true
-				if ret, ok := b.Instrs[len(b.Instrs)-1].(*ssa.Return); ok {
-					v := retVals(ret)[0]
-					if !isNilConst(v) {
-						if c, ok := v.(*ssa.Call); !ok || !strings.HasSuffix(callName(c.Common()), "types.NewDecCoins") || len(c.Common().Args) > 0 && !isNilConst(c.Common().Args[0]) {
-							okFail = false
-						}
-					}
-				}
-				for _, s := range b.Succs {
-					walk(s)
-				}
-			}
-			walk(e.To())
-		}
-		r.Check(okFail, "C14.sweep", funcName(fn)+": failed sweep contributes nothing", w.Pos(xfer.Instr.Pos()), "the failure edge returns nil / empty coins", "a failed sweep still reports the coins as inflow: they would be distributed without having arrived")
-		// success path returns NewDecCoinsFromCoins(coins transferred)
-		okRet := false
-		sent := coinsArg(xfer)
-		for _, ret := range Returns(fn) {
-			v := retVals(ret)[0]
-			if c, ok := v.(*ssa.Call); ok && strings.HasSuffix(callName(c.Common()), "types.NewDecCoinsFromCoins") {
-				if c.Common().Args[0] == sent || DerivesVia(c.Common().Args[0], sent) {
-					okRet = true
-				}
-			}
-		}
-		r.Check(okRet, "C14.sweep", funcName(fn)+": inflow reported = coins transferred", w.Pos(fn.Pos()), "NewDecCoinsFromCoins of the very coins sent", "the inflow reported differs from the coins that were moved into the main account")
-		// the coins sent are the balance of the source, moved into the main account
-		names := w.bankStringArgs(xfer)
-		toMain := false
-		for _, ns := range names {
-			for _, n := range ns {
-				if n == "distributor_main_account" {
-					toMain = true
-				}
-			}
-		}
-		for _, c := range xfer.Callees {
-			for _, ms := range cg.targetsBelow(c, func(x *Site) bool { return cg.Atom(x) == BankMove }, map[*ssa.Function]bool{}) {
-				_ = ms
-			}
-		}
-		r.Check(toMain, "C14.sweep", funcName(fn)+": swept into the distributor main account", w.Pos(xfer.Instr.Pos()), "destination constant", fmt.Sprintf("sweep destination %v", names))
-	}
+	sweepRule(w, r, "C14.sweep")
 	wrapperRule(w, r, "C14.wrapper")
 	persistRule(w, r, "C14.persist", a)
 	// ---------- C14.noerrorexit ----------
@@ -981,5 +909,85 @@ func wrapperRule(w *World, r *Report, rule string) {
 		}
 		r.Check(isParam && okRet && okArgs, rule, funcName(fn)+": transparent bank wrapper", w.Pos(s.Instr.Pos()),
 			"amount, accounts and result are passed through unchanged", "the wrapper changes the amount or accounts, or hides the bank's result: its callers book the amount they asked for on a nil result")
+	}
+}
+
+// sweepRule: a source sweep reports as inflow exactly what it moved into the main account, and nothing when the
+// transfer failed.
+func sweepRule(w *World, r *Report, rule string) {
+	cg := w.CG()
+	for _, anchor := range []string{"x/cfedistributor/keeper.Keeper.prepareCoinToDistributeForModuleAccount", "x/cfedistributor/keeper.Keeper.prepareCoinToDistributeForBaseAccount"} {
+		fn := w.Func(anchor)
+		if fn == nil {
+			r.Unk("infra.anchor", anchor, "", "anchor not found")
+			continue
+		}
+		var xfer *Site
+		for _, s := range cg.Sites[fn] {
+			for _, c := range s.Callees {
+				if len(cg.targetsBelow(c, func(x *Site) bool { return cg.Atom(x) == BankMove }, map[*ssa.Function]bool{})) > 0 {
+					xfer = s
+				}
+			}
+		}
+		if xfer == nil {
+			r.Bad(rule, funcName(fn)+": sweeps the source", w.Pos(fn.Pos()), "no transfer found")
+			continue
+		}
+		ev := errValues(fn, siteValue(xfer))
+		fail := NilEdges(fn, ev, false)
+		okFail := len(fail) > 0
+		for _, e := range fail {
+			// every return reachable from the failure edge yields nil / empty
+			seen := map[*ssa.BasicBlock]bool{}
+			var walk func(b *ssa.BasicBlock)
+			walk = func(b *ssa.BasicBlock) {
+				if seen[b] {
+					return
+				}
+				seen[b] = true
+				if ret, ok := b.Instrs[len(b.Instrs)-1].(*ssa.Return); ok {
+					v := retVals(ret)[0]
+					if !isNilConst(v) {
+						if c, ok := v.(*ssa.Call); !ok || !strings.HasSuffix(callName(c.Common()), "types.NewDecCoins") || len(c.Common().Args) > 0 && !isNilConst(c.Common().Args[0]) {
+							okFail = false
+						}
+					}
+				}
+				for _, s := range b.Succs {
+					walk(s)
+				}
+			}
+			walk(e.To())
+		}
+		r.Check(okFail, rule, funcName(fn)+": failed sweep contributes nothing", w.Pos(xfer.Instr.Pos()), "the failure edge returns nil / empty coins", "a failed sweep still reports the coins as inflow: they would be distributed without having arrived")
+		// success path returns NewDecCoinsFromCoins(coins transferred)
+		okRet := false
+		sent := coinsArg(xfer)
+		for _, ret := range Returns(fn) {
+			v := retVals(ret)[0]
+			if c, ok := v.(*ssa.Call); ok && strings.HasSuffix(callName(c.Common()), "types.NewDecCoinsFromCoins") {
+				if c.Common().Args[0] == sent || DerivesVia(c.Common().Args[0], sent) {
+					okRet = true
+				}
+			}
+		}
+		r.Check(okRet, rule, funcName(fn)+": inflow reported = coins transferred", w.Pos(fn.Pos()), "NewDecCoinsFromCoins of the very coins sent", "the inflow reported differs from the coins that were moved into the main account")
+		// the coins sent are the balance of the source, moved into the main account
+		names := w.bankStringArgs(xfer)
+		toMain := false
+		for _, ns := range names {
+			for _, n := range ns {
+				if n == "distributor_main_account" {
+					toMain = true
+				}
+			}
+		}
+		for _, c := range xfer.Callees {
+			for _, ms := range cg.targetsBelow(c, func(x *Site) bool { return cg.Atom(x) == BankMove }, map[*ssa.Function]bool{}) {
+				_ = ms
+			}
+		}
+		r.Check(toMain, rule, funcName(fn)+": swept into the distributor main account", w.Pos(xfer.Instr.Pos()), "destination constant", fmt.Sprintf("sweep destination %v", names))
 	}
 }
